@@ -7,6 +7,7 @@
 //   10 SPAWN (creator, before pthread_create)   11 ENTRY (new thread)   12 PRE_FINISH   13 EXIT
 //   14 JOIN (before pthread_join, obj = the joined pthread_t; parks the joiner until the target's EXIT)
 //   15 FLAG_WAIT / 16 FLAG_RESUME / 17 FLAG_SET  (creator's spin on the context hand-over flag)
+//   18 POST_SPAWN (creator, right after pthread_create)
 //   1/2 before atomicInc/atomicDec, 3 after
 // Anything that blocks inside the OS without a hook (mutex, semaphore, condition) must not be used under the scheduler.
 #pragma once
